@@ -1758,6 +1758,10 @@ class EAStorySwap(ElementAction):
             raise MosMergeError(
                 f"{self.__class__.__name__} error in {self.message_id} - story 2 not found"
             )
+        if story1 is story2:
+            raise MosMergeError(
+                f"{self.__class__.__name__} error in {self.message_id} - cannot swap a story with itself"
+            )
         remove_node(parent=ro.base_tag, node=story1)
         remove_node(parent=ro.base_tag, node=story2)
         insert_node(parent=ro.base_tag, node=story2, index=story1_index)
@@ -1830,6 +1834,10 @@ class EAItemSwap(ElementAction):
         if item2 is None:
             raise MosMergeError(
                 f"{self.__class__.__name__} error in {self.message_id} - item 2 not found"
+            )
+        if item1 is item2:
+            raise MosMergeError(
+                f"{self.__class__.__name__} error in {self.message_id} - cannot swap an item with itself"
             )
         remove_node(parent=story, node=item1)
         remove_node(parent=story, node=item2)
